@@ -44,6 +44,46 @@ T = {
  "C19-B": ("C19", "PartialEq for Terminal merges multi/sortedmulti arms", "pair differing only in multi vs sortedmulti"),
  "C20-A": ("C20", "PkIter::next moves on one leaf only", "tr with a key-less leaf followed by leaves with keys (constructor-built)"),
  "C20-B": ("C20", "Concrete::translate_pk reverses the odds of or()", "or() with unequal odds"),
+ "C01-C": ("C01", "Satisfaction::minimum (true,false) arm takes relative_timelock from the wrong candidate", "plan API, non-malleable, or-fragment: signed first branch, unsigned second branch with older, nested under something signed; caller holds both"),
+ "C01-D": ("C01", "sat_dissat.rs AndOr dissatisfaction: concatenate_rev receiver and argument swapped", "andor dissatisfied on the chosen path with a pkh / hash / or_i child (non-empty dissatisfactions)"),
+ "C02-C": ("C02", "sat_dissat.rs: j: folded into the no-effect wrapper group (dissatisfaction of j:X becomes X's)", "j: over a forced X, dissatisfied while a sibling is satisfied (or_b / andor / thresh)"),
+ "C02-D": ("C02", "PsbtInputSatisfier::check_older accepts relative locks only for nVersion == 2", "PSBT with nVersion 3, older() path is the only option"),
+ "C03-C": ("C03", "psbt/finalizer.rs construct_tap_witness: non-malleable and malleable satisfier calls swapped", "PSBT finalize of a taproot script path where the two satisfiers differ"),
+ "C03-D": ("C03", "Witness::ripemd160_preimage: missing preimage is Impossible instead of Unavailable", "ripemd160() as the unsigned alternative next to a signed one; signer lacks the preimage"),
+ "C04-C": ("C04", "DefiniteDescriptorKey loses its is_uncompressed() forwarder", "DefiniteDescriptorKey with a raw uncompressed key in pk_k / multi in Legacy / Bare"),
+ "C04-D": ("C04", "lexer drops NumEqual from the non-minimal VERIFY check", "tapscript with a hand-split NUMEQUAL VERIFY after multi_a"),
+ "C05-C": ("C05", "Miniscript::multi_a constructor stores the type of multi", "multi_a built by the direct constructor / decoder / compiler (not from_str / from_ast)"),
+ "C05-D": ("C05", "Correctness::and_or input table: swapped tuple fields in one arm", "andor(X,Y,Z) with X,Z exactly Input::One and Y zero-argument"),
+ "C06-C": ("C06", "Legacy::check_global_consensus_validity no longer refuses sortedmulti_a", "Miniscript::<_, Legacy>::from_ast(Terminal::SortedMultiA) (from_str still rejects)"),
+ "C06-D": ("C06", "RelLockTime validation accepts 0", "older(0) through any entry point"),
+ "C07-C": ("C07", "Correctness::sortedmulti_a typed AnyNonZero", "tr leaf j:sortedmulti_a(..), spend without the first-sorted key"),
+ "C07-D": ("C07", "push_ms_key_hash hashes the compressed serialisation", "pk_h / pkh fragment (not the pkh() descriptor) with an uncompressed key in sh / bare"),
+ "C08-C": ("C08", "RelLockTime::cmp_by_consensus ignores the unit flag (compiler cache key collision)", "policy with a block and a time older of equal low 16 bits"),
+ "C08-D": ("C08", "Concrete::timelock_info reads only k of a thresh's n children", "thresh(1<k<n) with height vs time children, one at position > k"),
+ "C09-C": ("C09", "Plan::scriptsig_size: OP_PUSHDATA1 boundary 76 instead of 75", "plan on bare sh(ms) with a redeem script of exactly 76 bytes, worst-case signatures"),
+ "C09-D": ("C09", "Miniscript::pk_h constructor computes ExtData without the key (assumes compressed)", "uncompressed key in a parsed / compiled pk_h (translate_pk restores the figure)"),
+ "C10-C": ("C10", "FromTree for Miniscript: every childless child of thresh treated like k", "thresh with a (wrapped) constant child: thresh(1,pk(A),a:0)"),
+ "C10-D": ("C10", "Display for DescriptorSecretKey prints a hardened wildcard as /*", "single-path xprv with /*h"),
+ "C11-C": ("C11", "into_single_descriptors indexes derivation paths unchecked", "tr with multipath keys of different lengths in leaf and internal key, then into_single_descriptors()"),
+ "C11-D": ("C11", "expression::verify_threshold no longer rejects a k that has children", "policy thresh(2(pk(A),pk(B)),pk(C),pk(D))"),
+ "C12-C": ("C12", "Segwitv0::check_global_consensus_validity skips sortedmulti keys", "wsh(sortedmulti(..)) with an uncompressed key via Descriptor::from_str / from_ast"),
+ "C12-D": ("C12", "ExtData::and_or tree_height ignores the third child", "deepest path through an andor else-branch; max_recursive_depth"),
+ "C13-C": ("C13", "interpreter stack Element::from treats any all-zero byte string as Dissatisfied", "empty witness element replaced by zero junk (00), or an all-zero preimage"),
+ "C13-D": ("C13", "from_txdata sh(wsh) branch lost the NonEmptyScriptSig check", "sh(wsh()) spend with extra pushes below the redeem-script push"),
+ "C14-C": ("C14", "Interpreter::verify_sig Schnorr: sighash failure counts as success", "taproot input signed SIGHASH_SINGLE at an index >= number of outputs"),
+ "C14-D": ("C14", "construct_tap_witness builds the raw-pkh map with the ECDSA key hash", "taproot leaf containing pkh() as the only satisfiable leaf"),
+ "C15-C": ("C15", "TapTree::combine depth check off by one", "combine-built tree with a leaf at depth exactly 128"),
+ "C15-D": ("C15", "TrSpendInfo::to_tap_tree drops single-leaf trees", "tr(KEY,leaf).to_tap_tree() / PSBT output update"),
+ "C16-C": ("C16", "DefiniteDescriptorKey::derive_public_key compresses uncompressed single keys", "raw 04.. key as descriptor key in pkh / bare / sh"),
+ "C16-D": ("C16", "Threshold::into_sorted_bip67_xonly sorts by the 33-byte key", "tr(.., sortedmulti_a(..)) with parity-carrying keys"),
+ "C17-C": ("C17", "Sh::plan_satisfaction_mall uses build_template (non-malleable) for ShInner::Ms", "plain sh(ms), malleable plan mode, script where the two algorithms differ"),
+ "C17-D": ("C17", "RelLockTime::max picks by raw consensus value", "two same-unit older() on the path, one with bits BIP68 ignores"),
+ "C18-C": ("C18", "TimelockInfo::combine_threshold carries contains_combination only for k > 1", "height/time conflict inside a conjunction below a disjunction"),
+ "C18-D": ("C18", "semantic variant_name names Hash160 'ripemd160'", "ripemd160() and hash160() atoms as siblings, then sorted()/Ord"),
+ "C19-C": ("C19", "Terminal::nary_len forgets multi_a / sortedmulti_a", "Tap: multi_a key lists where one is a strict prefix of the other"),
+ "C19-D": ("C19", "Clone for Terminal rebuilds n: as j:", "clone of a bare Terminal whose top node is n:"),
+ "C20-C": ("C20", "DefiniteDescriptorKey loses is_uncompressed (as C04-C)", "translate_pk to an uncompressed DefiniteDescriptorKey in segwit / taproot"),
+ "C20-D": ("C20", "ForEachKey for Miniscript skips SortedMultiA", "tr with a sortedmulti_a leaf"),
 }
 
 def main():
